@@ -37,7 +37,7 @@ def poolSize : Nat := 23
 
 /-- identifier of a lexical form: the smallest code that is written that way -/
 def lexId (c : Nat) : Nat :=
-  ((List.range (min c poolSize)).find? fun d => lexStr d == lexStr c).getD c
+  if c ≥ poolSize then c else ((List.range c).find? fun d => lexStr d == lexStr c).getD c
 
 def poolNum (l : Nat) : Option Int :=
   match l with
@@ -63,6 +63,11 @@ def poolBack (l : Nat) : Nat :=
 def poolEnv (vfix : Bool) : Env :=
   { lex := lexId, emptyLex := 12, strLt := fun a b => lexStr a < lexStr b, num := poolNum,
     litNorm := poolLitNorm, constVal := poolConstVal, back := poolBack, kind := poolKind, vfix := vfix }
+
+/-- the null policy of the code as it is: since /repo commit ea119b4 (`set_null` keeps its validity
+mask as long as the vector) every null is recorded. `poolEnv false` is the vector before that
+commit (witness `w_null_lost_after_first`). -/
+def asIs : Bool := true
 
 /-! ### parsing -/
 
@@ -238,17 +243,9 @@ def parseUpdate (s : String) : Option Update :=
 
 /-! ### printing -/
 
-def insertStr (x : String) : List String → List String
-  | [] => [x]
-  | y :: ys => if y ≤ x then y :: insertStr x ys else x :: y :: ys
+def sortStrs (l : List String) : List String := l.mergeSort (fun a b => decide (a ≤ b))
 
-def sortStrs (l : List String) : List String := l.foldr insertStr []
-
-def insertNat (x : Nat) : List Nat → List Nat
-  | [] => [x]
-  | y :: ys => if y ≤ x then y :: insertNat x ys else x :: y :: ys
-
-def sortNats (l : List Nat) : List Nat := l.foldr insertNat []
+def sortNats (l : List Nat) : List Nat := l.mergeSort (fun a b => decide (a ≤ b))
 
 def showCell : Cell → String
   | .null => "~"
@@ -264,7 +261,7 @@ def showRow (cols : List Nat) (r : Row) : String :=
     | c => some s!"{vc.1}={showCell c}"))
 
 def keyCells (cols : List Nat) (keys : List Nat) (r : Row) : List String :=
-  keys.map fun k => match (cols.zip r).find? (fun vc => vc.1 == k) with
+  keys.map fun k => match (cols.zip r).reverse.find? (fun vc => vc.1 == k) with
     | some (_, c) => showCell c
     | none => "~"
 
@@ -310,34 +307,8 @@ def showTriples (l : List Triple) : String :=
 
 /-! ### the domain the row-wise model covers -/
 
-def ptConsts : PT → List Nat
-  | .var _ => []
-  | .const c => [c]
-
-def tpConsts (tp : TP) : List Nat := ptConsts tp.s ++ ptConsts tp.p ++ ptConsts tp.o
-
-def exprConsts : Expr → List Nat
-  | .eq a b | .ne a b | .lt a b => ptConsts a ++ ptConsts b
-  | .bound _ => []
-  | .not e => exprConsts e
-  | .and a b | .or a b => exprConsts a ++ exprConsts b
-
-def patConsts : Pat → List Nat
-  | .unit => []
-  | .scan tp => tpConsts tp
-  | .join a b | .union a b => patConsts a ++ patConsts b
-  | .leftJoin a b c => patConsts a ++ patConsts b ++ (match c with | some e => exprConsts e | none => [])
-  | .filter e a => exprConsts e ++ patConsts a
-
 /-- column count of every row the plan hands on -/
 def widthsOk (t : Table) : Bool := t.rows.all fun r => r.length == t.cols.length
-
-def patColsM : Pat → List Nat
-  | .unit => []
-  | .scan tp => tpCols tp
-  | .join a b | .leftJoin a b _ => patColsM a ++ (patColsM b).filter fun v => !(patColsM a).contains v
-  | .union a _ => patColsM a
-  | .filter _ a => patColsM a
 
 /-- unions of branches with a different number of columns are modelled at the top of the WHERE
 clause only (below a join the engine's column vectors get different lengths, which a row-wise
@@ -348,46 +319,16 @@ def raggedOk (top : Bool) : Pat → Bool
   | .join a b => raggedOk false a && raggedOk false b
   | .leftJoin a b _ => raggedOk false a && raggedOk false b
   | .filter _ a => raggedOk top a
-  | .union a b => (top || (patColsM a).length == (patColsM b).length) && raggedOk top a && raggedOk top b
+  | .union a b => (top || (patCols a).length == (patCols b).length) && raggedOk top a && raggedOk top b
 
 def topRagged : Pat → Bool
   | .filter _ a => topRagged a
-  | .union a b => (patColsM a).length != (patColsM b).length || topRagged a || topRagged b
+  | .union a b => (patCols a).length != (patCols b).length || topRagged a || topRagged b
   | _ => false
 
 def noBlankConst (cs : List Nat) : Bool := cs.all fun c => poolKind c != .blank
 
 /-! ### signatures: the first hypothesis of the partial theorems that the line violates -/
-
-def linearTP (tp : TP) : Bool := (tpCols tp).Nodup
-
-def patLinear : Pat → Bool
-  | .unit => true
-  | .scan tp => linearTP tp
-  | .join a b | .union a b | .leftJoin a b _ => patLinear a && patLinear b
-  | .filter _ a => patLinear a
-
-def patHasOptional : Pat → Bool
-  | .unit | .scan _ => false
-  | .leftJoin _ _ _ => true
-  | .join a b | .union a b => patHasOptional a || patHasOptional b
-  | .filter _ a => patHasOptional a
-
-/-- `leftJoin a b (some e)` written the way the translator writes it -/
-def normOpt : Pat → Pat
-  | .unit => .unit
-  | .scan tp => .scan tp
-  | .join a b => .join (normOpt a) (normOpt b)
-  | .union a b => .union (normOpt a) (normOpt b)
-  | .filter e a => .filter e (normOpt a)
-  | .leftJoin a b none => .leftJoin (normOpt a) (normOpt b) none
-  | .leftJoin a b (some e) => .leftJoin (normOpt a) (.filter e (normOpt b)) none
-
-def unionAligned : Pat → Bool
-  | .unit | .scan _ => true
-  | .join a b | .leftJoin a b _ => unionAligned a && unionAligned b
-  | .union a b => patColsM a == patColsM b && unionAligned a && unionAligned b
-  | .filter _ a => unionAligned a
 
 def exprHasBound : Expr → Bool
   | .bound _ => true
@@ -401,26 +342,30 @@ def patHasFilter : Pat → Bool
   | .join a b | .union a b => patHasFilter a || patHasFilter b
   | .leftJoin a b c => patHasFilter a || patHasFilter b || c.isSome
 
-def lexClash (env : Env) (terms : List Nat) : Bool :=
-  terms.any fun a => terms.any fun b => a != b && env.lex a == env.lex b
-
-def triplesTerms (G : List Triple) : List Nat := G.flatMap fun t => [t.s, t.p, t.o]
+def bodyRows (s : String) : List String :=
+  match s.splitOn "|" with
+  | [_, b] => if b == "" then [] else b.splitOn ";"
+  | _ => []
 
 /-- signature of a model ≠ spec deviation on a query line -/
 def querySig (st : Store) (full : List Triple) (G : List Triple) (g : Grp) (distinct ordered sliced : Bool)
-    (modelFix modelAsIs : String) : String :=
+    (modelFix modelAsIs specStr : String) : String :=
   let code := transCode g
   let std := transStd g
   if modelAsIs == "err" then
-    (if (exec (poolEnv false) st full code).isNone then "sparql-empty-group-error" else "sparql-variable-not-a-column-error")
+    (if (exec (poolEnv asIs) st full code).isNone then "sparql-empty-group-error"
+     else if !unionAligned code then "sparql-union-columns-of-first-branch"
+     else "sparql-variable-not-a-column-error")
+  else if ordered && sortStrs (bodyRows modelAsIs) == sortStrs (bodyRows specStr) &&
+      (modelAsIs.splitOn "|").head? == (specStr.splitOn "|").head? then "sparql-order-by"
   else if modelFix != modelAsIs then "sparql-null-lost-after-first"
   else if !patLinear code then "sparql-repeated-variable-in-pattern"
   else if (patConsts code).any (fun c => poolLitNorm c != c) then "sparql-literal-constant-loses-tag"
   else if !unionAligned code then "sparql-union-columns-of-first-branch"
-  else if normOpt std != code then "sparql-optional-placement"
+  else if normOpt (simpUnit std) != code then "sparql-optional-placement"
   else if distinct then "sparql-distinct-ignored"
   else if patHasOptional code then "sparql-unbound-handling"
-  else if lexClash (poolEnv false) (triplesTerms G ++ patConsts code) then "sparql-terms-compared-as-strings"
+  else if lexClash (poolEnv asIs) (triplesTerms G ++ patConsts code) then "sparql-terms-compared-as-strings"
   else if patHasFilter code then "sparql-filter-semantics"
   else if ordered then "sparql-order-by"
   else if sliced then "sparql-slice"
@@ -451,7 +396,7 @@ def runSelect (vfix : Bool) (c : Ctx) (q : Select) : String :=
   | some t => showTable t.cols t.rows (q.order.map (·.1))
 
 def specSelectStr (c : Ctx) (q : Select) : String :=
-  let env := poolEnv false
+  let env := poolEnv asIs
   let cols := match q.proj with
     | none => (grpVars q.where_).eraseDups
     | some vs => vs
@@ -466,17 +411,16 @@ def runCount (vfix : Bool) (c : Ctx) (q : Count) : String :=
   | some t => showTable t.cols t.rows (q.order.map (·.1))
 
 def specCountStr (c : Ctx) (q : Count) : String :=
-  let env := poolEnv false
+  let env := poolEnv asIs
   showTable (q.groupBy ++ [q.alias]) ((specCount env c.n c.G q).map (countRowCells env)) (q.order.map (·.1))
 
-/-- is `small` contained in `big` as a multiset (both lists of printed rows)? -/
-def subBag (small big : List String) : Bool :=
-  (small.foldl (fun (acc : Option (List String)) x => acc.bind fun l => if l.contains x then some (l.erase x) else none) (some big)).isSome
+/-- is `small` contained in `big` as a multiset (both sorted)? -/
+partial def subSorted : List String → List String → Bool
+  | [], _ => true
+  | _ :: _, [] => false
+  | x :: xs, y :: ys => if x == y then subSorted xs ys else if y < x then subSorted (x :: xs) ys else false
 
-def bodyRows (s : String) : List String :=
-  match s.splitOn "|" with
-  | [_, b] => if b == "" then [] else b.splitOn ";"
-  | _ => []
+def subBag (small big : List String) : Bool := subSorted (sortStrs small) (sortStrs big)
 
 def chkStr (sliced full : String) : String :=
   if sliced == "err" || full == "err" then "err"
@@ -490,7 +434,7 @@ def selectStarAfter (vfix : Bool) (st : Store) (full : List Triple) : String :=
   | some t => showTable t.cols t.rows []
 
 def specStarAfter (G : List Triple) : String :=
-  let env := poolEnv false
+  let env := poolEnv asIs
   showTable [0, 1, 2] (G.map fun t => [Cell.str (env.lex t.s), .str (env.lex t.p), .str (env.lex t.o)]) []
 
 def runUpdate (vfix : Bool) (c : Ctx) (u : Update) : String :=
@@ -499,7 +443,7 @@ def runUpdate (vfix : Bool) (c : Ctx) (u : Update) : String :=
   | some u' => showTriples u'.st.triples ++ "/" ++ selectStarAfter vfix u'.st u'.full
 
 def specUpdateStr (c : Ctx) (u : Update) : String :=
-  match specUpdate (poolEnv false) c.n c.G u with
+  match specUpdate (poolEnv asIs) c.n c.G u with
   | none => "err:" ++ showTriples c.G ++ "/" ++ specStarAfter c.G
   | some G' => showTriples G' ++ "/" ++ specStarAfter G'
 
@@ -516,7 +460,7 @@ def updateConsts : Update → List Nat
 def backStable (env : Env) (terms : List Nat) : Bool := terms.all fun t => env.back (env.lex t) == t
 
 def updateSig (c : Ctx) (u : Update) (modelFix modelAsIs : String) : String :=
-  let env := poolEnv false
+  let env := poolEnv asIs
   let plan := updatePlan u
   if modelAsIs.startsWith "err" then "sparql-update-rejected"
   else if modelFix != modelAsIs then "sparql-null-lost-after-first"
@@ -532,11 +476,12 @@ def updateSig (c : Ctx) (u : Update) (modelFix modelAsIs : String) : String :=
           | some t => t.updRows != t.rows
           | none => false) then "sparql-update-ignores-selection"
       else if !backStable env (triplesTerms c.G) then "sparql-update-term-from-string"
-      else if normOpt (transStd w) != plan || !patLinear plan || !unionAligned plan then "sparql-update-where-translation"
+      else if normOpt (simpUnit (transStd w)) != plan || !patLinear plan || !unionAligned plan then "sparql-update-where-translation"
       else if lexClash env (triplesTerms c.G ++ patConsts plan) then "sparql-terms-compared-as-strings"
       else "sparql-update-other"
 
-def mk (m s sig : String) : Proto.Out := { model := m, spec := s, sig := if m == s then "-" else sig }
+/-- the signature is computed only for a deviation -/
+def mk (m s : String) (sig : Unit → String) : Proto.Out := { model := m, spec := s, sig := if m == s then "-" else sig () }
 
 def handle (args : List String) : Option Proto.Out :=
   match args with
@@ -547,34 +492,36 @@ def handle (args : List String) : Option Proto.Out :=
         (topRagged (transCode q.where_) && (q.proj.isSome || !q.order.isEmpty || q.offset.isSome || q.limit.isSome)) then
       pure { model := "unmodelled", spec := "-" }
     else
-      let m := runSelect false c q
+      let m := runSelect asIs c q
       let sliced := q.offset.isSome || q.limit.isSome
       if sliced && q.order.isEmpty then pure { model := m, spec := "-" }     -- any such subset is right: see `chk`
       else
         let s := specSelectStr c q
-        pure (mk m s (querySig c.st c.full c.G q.where_ q.distinct (!q.order.isEmpty) sliced (runSelect true c q) m))
+        pure (mk m s fun _ => querySig c.st c.full c.G q.where_ q.distinct (!q.order.isEmpty) sliced (runSelect asIs c q) m s)
   | ["chk", io, ts, sc, n, qs] => do
     let c ← mkCtx io ts sc n
     let q ← parseSelect qs
     if !inDomainPat (transCode q.where_) || topRagged (transCode q.where_) then pure { model := "unmodelled", spec := "-" }
     else
       let whole := { q with offset := none, limit := none }
-      let m := chkStr (runSelect false c q) (runSelect false c whole)
+      let m := chkStr (runSelect asIs c q) (runSelect asIs c whole)
       let s := chkStr (specSelectStr c q) (specSelectStr c whole)
-      pure (mk m s (querySig c.st c.full c.G q.where_ q.distinct false true
-        (chkStr (runSelect true c q) (runSelect true c whole)) m))
+      pure (mk m s fun _ => querySig c.st c.full c.G q.where_ q.distinct false true m m s)
   | ["cnt", io, ts, sc, n, qs] => do
     let c ← mkCtx io ts sc n
     let q ← parseCount qs
     if !inDomainPat (transCode q.where_) then pure { model := "unmodelled", spec := "-" }
     else
-      let m := runCount false c q
+      let m := runCount asIs c q
       let sliced := q.offset.isSome || q.limit.isSome
       if sliced && q.order.isEmpty then pure { model := m, spec := "-" }
       else
         let s := specCountStr c q
-        let sig0 := querySig c.st c.full c.G q.where_ false (!q.order.isEmpty) sliced (runCount true c q) m
-        let sig := if sig0 == "sparql-order-by" || sig0 == "sparql-slice" then "sparql-count-column-type-lost"
+        let sig := fun (_ : Unit) =>
+          let sig0 := querySig c.st c.full c.G q.where_ false (!q.order.isEmpty) sliced m m s
+          -- a Sort above the aggregate rebuilds every row into String columns: the counts are gone
+          if m != "err" && !q.order.isEmpty then "sparql-count-column-type-lost"
+          else if sig0 == "sparql-order-by" || sig0 == "sparql-slice" then "sparql-count-column-type-lost"
           else if sig0 == "sparql-other" || sig0 == "sparql-unbound-handling" then "sparql-count-counts-unbound" else sig0
         pure (mk m s sig)
   | ["upd", io, ts, sc, n, us] => do
@@ -582,8 +529,8 @@ def handle (args : List String) : Option Proto.Out :=
     let u ← parseUpdate us
     if !noBlankConst (updateConsts u) || !raggedOk true (updatePlan u) then pure { model := "unmodelled", spec := "-" }
     else
-      let m := runUpdate false c u
-      pure (mk m (specUpdateStr c u) (updateSig c u (runUpdate true c u) m))
+      let m := runUpdate asIs c u
+      pure (mk m (specUpdateStr c u) fun _ => updateSig c u m m)
   | _ => none
 
 end Grafeo.DriverSparql
